@@ -542,6 +542,8 @@ def _bodies(importable: bool, expr_leaves: int, eval_annotations: bool = False):
                     "selfattrs": st.lists(selfattr, max_size=2) if method else st.just([]),
                     # statements nested in the body of `__init__` (Griffe visits that body): a def or a class
                     "inner": st.lists(st.deferred(lambda: func(FUNC_NAMES, method=False) | cls(2)), max_size=1) if method else st.just([]),
+                    # one-line form `def f(...): stmt` when the body renders as a single simple statement
+                    "oneline": st.booleans(),
                 },
             ),
         ).map(list)
@@ -549,7 +551,11 @@ def _bodies(importable: bool, expr_leaves: int, eval_annotations: bool = False):
     def cls(depth: int):
         # annotated (and mostly documented) class attributes: they become dataclass fields / documented parameters
         field = st.tuples(st.just("attr"), st.sampled_from(ATTR_NAMES), ann, st.none() | value, docstrings() | odoc).map(list)
-        members = [attr, field, func(FUNC_NAMES + ("__init__",), method=True)]
+        # `def __init__(self, p): self.x = p` on one line: an instance attribute on the `def` line itself
+        init1 = func(("__init__",), method=True).map(
+            lambda st_: [st_[0], st_[1], {**st_[2], "oneline": True, "selfattrs": st_[2]["selfattrs"] or [["x", None, ["param", 0], None]]}],
+        )
+        members = [attr, field, func(FUNC_NAMES + ("__init__", "__init__"), method=True), init1]
         if depth < 2:
             members.append(st.deferred(lambda: cls(depth + 1)))
         return st.tuples(
@@ -561,7 +567,9 @@ def _bodies(importable: bool, expr_leaves: int, eval_annotations: bool = False):
                     "kw": st.just([]) if importable else st.lists(st.tuples(st.sampled_from(("metaclass", "k")), value).map(list), max_size=1),
                     "decos": class_decos,
                     # a dataclass whose fields feed a synthesised `__init__` (documented parameters); static flavour only
-                    "dc": st.just(False) if importable else st.booleans(),
+                    "dc": st.just(False) if importable else st.integers(0, 3).map(lambda i: i == 0),
+                    # one-line form `class C: x = 1` when the body renders as a single simple statement
+                    "oneline": st.booleans(),
                     "doc": odoc,
                     "body": st.lists(st.one_of(members), max_size=3),
                 },
@@ -637,6 +645,14 @@ class _Src:
             self.add(indent, "'''" + body[0] + "'''")
         else:
             self.add(indent, "'''" + "\n".join(body) + "\n'''")
+
+    def join_single_statement(self, head: int) -> None:
+        """`header:` + one simple statement on the next line -> `header: statement` on one line."""
+        if len(self.lines) == head + 2:
+            stmt = self.lines[-1].strip()
+            if stmt and not stmt.startswith(("@", "def ", "class ", "async ")):
+                self.lines.pop()
+                self.lines[head] += " " + stmt
 
     def text(self) -> str:
         return "\n".join(self.lines) + "\n"
@@ -761,6 +777,10 @@ class _ModRenderer:
     def func(self, indent: int, stmt, in_class: str | None) -> None:
         _, name, spec = stmt
         s = self.src
+        if spec.get("oneline") and in_class is not None and name == "__init__" and spec["selfattrs"]:
+            # `def __init__(self, p): self.x = p` - the body is the first assignment, on the `def` line itself
+            first_attr = spec["selfattrs"][0]
+            spec = {**spec, "doc": None, "inner": [], "selfattrs": [[first_attr[0], first_attr[1], first_attr[2], None]]}
         if in_class is not None and name == "__init__" and "init-param-names" in _CTX["steer"]:
             # known finding init-param-names: no `__init__` parameter shares its name with a name used in expressions
             def ren(entry):
@@ -797,6 +817,7 @@ class _ModRenderer:
         ret = f" -> {expr_text(spec['returns'])}" if spec["returns"] is not None else ""
         ptxt = _params_text(spec["params"], first) if not prop else "self"
         s.add(indent, f"{kw} {name}({ptxt}){ret}:")
+        head = len(s.lines) - 1
         s.doc(indent + 1, spec["doc"], self.style)
         wrote = spec["doc"] is not None
         if in_class is not None and name == "__init__":
@@ -818,6 +839,8 @@ class _ModRenderer:
                 wrote = True
         if not wrote:
             s.add(indent + 1, "...")
+        if spec.get("oneline"):
+            s.join_single_statement(head)
         if prop in (2, 3):
             s.add(indent, f"@{name}.setter")
             s.add(indent, f"def {name}(self, value): ...")
@@ -830,6 +853,11 @@ class _ModRenderer:
     def cls(self, indent: int, stmt, in_class: str | None) -> None:
         _, name, spec = stmt
         s = self.src
+        if spec.get("oneline"):
+            # `class C: x = 1` - the body is the first attribute statement, on the `class` line itself
+            attrs = [st_ for st_ in spec["body"] if st_[0] == "attr" and (st_[2] is not None or st_[3] is not None)]
+            if attrs:
+                spec = {**spec, "doc": None, "body": [[*attrs[0][:4], None]]}
         if name == in_class and "init-param-names" in _CTX["steer"]:
             name += "_"  # known finding: inside `__init__` the class name designates the class, not its member of that name
         decos = [self._deco(d, CLASS_DECOS) for d in spec["decos"]]
@@ -863,6 +891,8 @@ class _ModRenderer:
         self.body(indent + 1, spec["body"], in_class=name)
         if len(s.lines) == mark:
             s.add(indent + 1, "pass")
+        if spec.get("oneline"):
+            s.join_single_statement(mark - 1)
         if indent == 0:
             if name not in self.classes:
                 self.classes.append(name)
